@@ -386,35 +386,191 @@ theorem entriesOf_distinct (t : Tree) (root : Path) (hd : t.Pairwise (fun a b =>
   rw [List.pairwise_map]
   exact (List.Pairwise.sublist List.filter_sublist hd)
 
-theorem planMulti_single (T : Tables) (o : Opts) (vmap : List VEntry) (es : List Entry) (rs : List Ren)
-    (h : planMulti T o vmap [es] = .ok rs) : rs = [] ∨ planWithSearch T o vmap es = .ok rs := by
-  unfold planMulti at h
-  split at h
-  · left; cases h; rfl
-  · split at h
-    · cases h
-    · rename_i rs0 h0
-      simp only [planMulti] at h
-      cases h
-      right; simpa using h0
+-- several roots -------------------------------------------------------------------------------------------------------------
 
-/-- the plan of `renamify rename … <root>` for one search root is a sub-list of an accepted per-root plan -/
-theorem planRenames_single (T : Tables) (o : Opts) (vmap : List VEntry) (t : Tree) (root : Path) (rs : List Ren)
-    (h : planRenames T o vmap t [root] = .ok rs) :
-    rs = [] ∨ ∃ rs0, planWithSearch T o vmap (entriesOf t root) = .ok rs0 ∧ List.Sublist rs rs0 := by
-  unfold planRenames at h
-  simp only [List.map_cons, List.map_nil] at h
+/-- every rename the per-root loop returns comes from the accepted plan of one of the roots -/
+theorem planLoop_mem (T : Tables) (o : Opts) (vmap : List VEntry) :
+    ∀ (ess : List (List Entry)) (rs : List Ren), planLoop T o vmap ess = .ok rs →
+      ∀ r ∈ rs, ∃ es ∈ ess, ∃ rs0, planWithSearch T o vmap es = .ok rs0 ∧ r ∈ rs0 := by
+  intro ess
+  induction ess with
+  | nil => intro rs h r hr; simp only [planLoop] at h; cases h; cases hr
+  | cons es rest ih =>
+    intro rs h r hr
+    simp only [planLoop] at h
+    split at h
+    · cases h; cases hr
+    · split at h
+      · cases h
+      · rename_i rs0 h0
+        split at h
+        · cases h
+        · rename_i rs1 h1
+          cases h
+          rcases List.mem_append.1 hr with hr | hr
+          · exact ⟨es, List.mem_cons_self, rs0, h0, hr⟩
+          · obtain ⟨es', hes', rs0', h0', hr'⟩ := ih rs1 h1 r hr
+            exact ⟨es', List.mem_cons_of_mem _ hes', rs0', h0', hr'⟩
+
+theorem dedupRens_sublist : ∀ (rs : List Ren), List.Sublist (dedupRens rs) rs := by
+  intro rs
+  induction rs with
+  | nil => exact List.Sublist.refl _
+  | cons r rs ih =>
+    simp only [dedupRens]
+    exact List.Sublist.cons_cons r (List.filter_sublist.trans ih)
+
+/-- after `dedup_renames` no node is scheduled twice -/
+theorem dedupRens_distinct : ∀ (rs : List Ren), (dedupRens rs).Pairwise (fun a b => a.path ≠ b.path) := by
+  intro rs
+  induction rs with
+  | nil => exact List.Pairwise.nil
+  | cons r rs ih =>
+    simp only [dedupRens]
+    refine List.pairwise_cons.2 ⟨?_, List.Pairwise.sublist List.filter_sublist ih⟩
+    intro x hx
+    have := (List.mem_filter.1 hx).2
+    intro h; simp [h] at this
+
+/-- … and no scheduled node is lost -/
+theorem dedupRens_cover : ∀ (rs : List Ren) (r : Ren), r ∈ rs → ∃ r' ∈ dedupRens rs, r'.path = r.path := by
+  intro rs
+  induction rs with
+  | nil => intro r hr; cases hr
+  | cons x rs ih =>
+    intro r hr
+    simp only [dedupRens]
+    rcases List.mem_cons.1 hr with rfl | hr
+    · exact ⟨r, List.mem_cons_self, rfl⟩
+    · obtain ⟨r', hr', hp⟩ := ih r hr
+      by_cases hx : r'.path = x.path
+      · exact ⟨x, List.mem_cons_self, by rw [← hx, hp]⟩
+      · exact ⟨r', List.mem_cons_of_mem _ (List.mem_filter.2 ⟨hr', by simpa using hx⟩), hp⟩
+
+theorem mem_filterRoots {cn : Path → Path} {roots : List Path} {b : Bool} {rs : List Ren} {r : Ren}
+    (h : r ∈ filterRoots cn roots b rs) : r ∈ rs ∧ (b = false → ∀ root ∈ roots, r.path ≠ root) := by
+  unfold filterRoots at h
+  cases b with
+  | true =>
+    simp only [if_true] at h
+    refine ⟨?_, fun hb => by cases hb⟩
+    rcases List.mem_append.1 h with h | h <;> exact (List.mem_filter.1 h).1
+  | false =>
+    simp only [Bool.false_eq_true, if_false] at h
+    obtain ⟨h1, h2⟩ := List.mem_filter.1 h
+    refine ⟨h1, fun _ root hroot heq => ?_⟩
+    have : (roots.any fun root => cn r.path == cn root) = true :=
+      List.any_eq_true.2 ⟨root, hroot, by simp [heq]⟩
+    simp [this] at h2
+
+theorem filterRoots_distinct {cn : Path → Path} {roots : List Path} {b : Bool} {rs : List Ren}
+    (h : rs.Pairwise (fun a b => a.path ≠ b.path)) :
+    (filterRoots cn roots b rs).Pairwise (fun a b => a.path ≠ b.path) := by
+  unfold filterRoots
+  cases b with
+  | true =>
+    simp only [if_true]
+    exact distinct_perm (List.filter_append_perm _ rs).symm h
+  | false =>
+    simp only [Bool.false_eq_true, if_false]
+    exact List.Pairwise.sublist List.filter_sublist h
+
+/-- the plan of `renamify rename … <roots…>`: no node twice; every rename belongs to the accepted plan of a root
+    and (without `--rename-root`) is not a root itself -/
+theorem planRenames_mem (T : Tables) (o : Opts) (vmap : List VEntry) (t : Tree) (roots : List Path) (b : Bool)
+    (rs : List Ren) (h : planRenames T o vmap t roots b = .ok rs) :
+    rs.Pairwise (fun a b => a.path ≠ b.path) ∧
+    ∀ r ∈ rs, (∃ root ∈ roots, ∃ rs0, planWithSearch T o vmap (entriesOf t root) = .ok rs0 ∧ r ∈ rs0) ∧
+      (b = false → ∀ root ∈ roots, r.path ≠ root) := by
+  unfold planRenames planMulti at h
   split at h
   · cases h
-  · rename_i rs0 h0
-    cases h
-    rcases planMulti_single T o vmap _ rs0 h0 with hnil | hok
-    · left; subst hnil; simp [filterRoots]
-    · right
-      refine ⟨rs0, hok, ?_⟩
-      simp only [filterRoots, Bool.false_eq_true, if_false]
-      exact List.filter_sublist
+  · rename_i rs1 h1
+    split at h1
+    · cases h1
+    · rename_i rs2 h2
+      cases h1; cases h
+      refine ⟨filterRoots_distinct (dedupRens_distinct rs2), ?_⟩
+      intro r hr
+      obtain ⟨hr1, hr2⟩ := mem_filterRoots hr
+      obtain ⟨es, hes, rs0, h0, hr0⟩ := planLoop_mem T o vmap _ rs2 h2 r ((dedupRens_sublist rs2).subset hr1)
+      obtain ⟨root, hroot, rfl⟩ := List.mem_map.1 hes
+      exact ⟨⟨root, hroot, rs0, h0, hr0⟩, hr2⟩
 
+/-- membership in an accepted per-root plan -/
+theorem mem_accepted {T : Tables} {o : Opts} {vmap : List VEntry} {es : List Entry} {rs : List Ren}
+    (h : planWithSearch T o vmap es = .ok rs) (r : Ren) :
+    r ∈ rs ↔ r ∈ collect T o vmap es ∧ (o.renameRoot = true ∨ r.path ≠ o.cwd) := by
+  rw [(accepted_perm T o vmap es rs h).1.mem_iff]
+  split
+  · rename_i hrr; simp [hrr]
+  · rename_i hrr
+    rw [List.mem_filter]
+    simp [hrr]
+
+-- prefixes ------------------------------------------------------------------------------------------------------------------------
+
+theorem pre_comparable {a b q : Path} (ha : pre a q = true) (hb : pre b q = true) :
+    pre a b = true ∨ pre b a = true := by
+  obtain ⟨s, hs⟩ := RenamePhase.pre_iff.1 ha
+  obtain ⟨s', hs'⟩ := RenamePhase.pre_iff.1 hb
+  rcases Nat.le_total a.length b.length with hl | hl
+  · left
+    have h1 : q.take a.length = a := by rw [hs]; simp
+    have h2 : q.take a.length = b.take a.length := by rw [hs', List.take_append_of_le_length hl]
+    have ha' : b.take a.length = a := h2.symm.trans h1
+    refine RenamePhase.pre_iff.2 ⟨b.drop a.length, ?_⟩
+    calc b = b.take a.length ++ b.drop a.length := (List.take_append_drop _ _).symm
+      _ = a ++ b.drop a.length := by rw [ha']
+  · right
+    have h1 : q.take b.length = b := by rw [hs']; simp
+    have h2 : q.take b.length = a.take b.length := by rw [hs, List.take_append_of_le_length hl]
+    have hb' : a.take b.length = b := h2.symm.trans h1
+    refine RenamePhase.pre_iff.2 ⟨a.drop b.length, ?_⟩
+    calc a = a.take b.length ++ a.drop b.length := (List.take_append_drop _ _).symm
+      _ = b ++ a.drop b.length := by rw [hb']
+
+/-- a proper extension of `a`: `a` is also a prefix of the parent -/
+theorem pre_dropLast {a q : Path} (h : pre a q = true) (hne : q ≠ a) : pre a q.dropLast = true := by
+  obtain ⟨s, hs⟩ := RenamePhase.pre_iff.1 h
+  have hs0 : s ≠ [] := by intro h0; apply hne; rw [hs, h0]; simp
+  rw [hs, List.dropLast_append_of_ne_nil hs0]
+  exact RenamePhase.pre_append _ _
+
+theorem mem_entriesOf {t : Tree} {root : Path} {e : Entry} (h : e ∈ entriesOf t root) :
+    pre root e.1 = true ∧ ∃ x ∈ t, e = (x.1, ekindOf x.2) ∧
+      ((x.1.drop root.length).contains [46, 103, 105, 116]) = false := by
+  unfold entriesOf at h
+  obtain ⟨x, hx, rfl⟩ := List.mem_map.1 h
+  obtain ⟨hx1, hx2⟩ := List.mem_filter.1 hx
+  simp only [Bool.and_eq_true, Bool.not_eq_true'] at hx2
+  exact ⟨hx2.1, x, hx1, rfl, hx2.2⟩
+
+/-- a root below another root (no `.git` component in it) is walked by the outer root as well -/
+theorem entriesOf_mono {t : Tree} {a b : Path} (hab : pre a b = true)
+    (hgit : b.contains [46, 103, 105, 116] = false) {e : Entry} (h : e ∈ entriesOf t b) : e ∈ entriesOf t a := by
+  obtain ⟨hp, x, hx, rfl, hg⟩ := mem_entriesOf h
+  unfold entriesOf
+  refine List.mem_map.2 ⟨x, List.mem_filter.2 ⟨hx, ?_⟩, rfl⟩
+  simp only [Bool.and_eq_true, Bool.not_eq_true']
+  refine ⟨RenamePhase.pre_trans hab hp, ?_⟩
+  obtain ⟨s, hs⟩ := RenamePhase.pre_iff.1 hab
+  obtain ⟨s', hs'⟩ := RenamePhase.pre_iff.1 hp
+  simp only at hs'
+  have e1 : x.1.drop a.length = s ++ s' := by rw [hs', hs]; simp
+  have e2 : x.1.drop b.length = s' := by rw [hs']; simp
+  rw [e2] at hg
+  rw [e1]
+  have hs_git : s.contains [46, 103, 105, 116] = false := by
+    cases hc : s.contains [46, 103, 105, 116] with
+    | false => rfl
+    | true =>
+      have : b.contains [46, 103, 105, 116] = true := by
+        rw [hs]; simp only [List.contains_eq_mem, List.mem_append, decide_eq_true_eq] at hc ⊢
+        exact Or.inr hc
+      rw [this] at hgit; cases hgit
+  simp only [List.contains_eq_mem, List.mem_append, decide_eq_false_iff_not, not_or] at hs_git hg ⊢
+  exact ⟨hs_git, hg⟩
 
 -- trees ------------------------------------------------------------------------------------------------------------------------
 
